@@ -102,7 +102,8 @@ def _partition_strategy(tier):
     big = tier == "thorough"
     return st.fixed_dictionaries({
         "kind": st.sampled_from(["random", "seq"]),
-        "N": st.one_of(st.integers(0, 40), st.integers(0, 300 if big else 80)),
+        "N": st.one_of(st.integers(0, 40), st.integers(0, 300 if big else 80),
+                       st.sampled_from([255, 256, 257, 1023, 1024, 1025, 4097] + ([65537] if big else []))),
         "world": st.integers(1, 7) if not big else st.integers(1, 17),
         "mode": st.sampled_from(MODES),
         "seed": st.one_of(st.integers(0, 10), st.integers(0, 2**31 - 1)),
